@@ -45,7 +45,7 @@ var props = []*core.Property{
 	prop("C15", "other", "x", nil, ruleAliases, ruleNames, ruleEquality, ruleLookup),
 	prop("C07", "other", "x", nil, ruleTextNode, ruleTextPredicate, ruleTextShape, ruleBOMTable, ruleWalkDiscipline, ruleLimitSlice, ruleReader),
 	prop("C11", "other", "x", nil, ruleBOMTable, rulePlainReturns, ruleASCIIClass, ruleTrim, ruleLatin),
-	prop("C10", "other", "x", nil, ruleJSONNodes, ruleStackBalance, ruleQueryTables, ruleTokenGate),
+	prop("C10", "other", "x", nil, ruleJSONNodes, ruleStackBalance, ruleQueryTables, ruleQueryDiscipline, ruleTokenGate, ruleParseResults),
 	prop("C08", "other", "x", nil, ruleTruncTable, ruleFailProp, ruleParseResults, ruleCap, ruleJSONNodes, ruleTokenGate, ruleSnapshot),
 	prop("C09", "other", "x", nil, ruleFailProp, ruleTruncTable, ruleParseResults, ruleSeparators, ruleTokenGate),
 	prop("C13", "other", "x", nil, ruleInspectedGuard, ruleSnapshot),
